@@ -4,31 +4,33 @@ Import ListNotations.
 Require Import Base.Wire Base.PyStr C17.Model C17.Names C17.Lemmas C17.Witness.
 Require gen.T17.
 
+Ltac dom H := pose proof (link_ok_paths _ _ _ _ _ H); pose proof (link_ok_alive _ _ _ _ _ H).
+
 Lemma C17_atomic_on_domain_l :
   forall cfg fn tok now chunk (f0 : fs) (ws : list bytes) k,
-  token_ok tok = true -> digits_ok now = true -> same_fs cfg = true ->
-  let t := apply (firstn k (effects cfg fn tok now chunk f0 (save_ops ws))) f0 fn in
-  t = f0 fn \/ t = Some (concat ws) \/ (f0 fn = None /\ t = Some []).
+  token_ok tok = true -> digits_ok now = true -> link_ok cfg fn tok now f0 -> same_fs cfg = true ->
+  let t := rd cfg fn (apply (firstn k (effects cfg fn tok now chunk f0 (save_ops ws))) f0) in
+  t = rd cfg fn f0 \/ t = Some (concat ws) \/ (rd cfg fn f0 = None /\ t = Some []).
 Proof.
-  intros cfg fn tok now chunk f0 ws k Ht Hn Hs. apply atomic_same_fs; auto.
+  intros cfg fn tok now chunk f0 ws k Ht Hn Hl Hs. dom Hl. apply atomic_same_fs; auto.
   unfold same_fs in Hs. now apply negb_true_iff in Hs.
 Qed.
 
 Lemma C17_atomic_refuted_l :
   exists cfg fn tok now chunk (f0 : fs) (ws : list bytes) k,
-  token_ok tok = true /\ digits_ok now = true /\ same_fs cfg = false /\
-  let t := apply (firstn k (effects cfg fn tok now chunk f0 (save_ops ws))) f0 fn in
-  ~ (t = f0 fn \/ t = Some (concat ws) \/ (f0 fn = None /\ t = Some [])).
+  token_ok tok = true /\ digits_ok now = true /\ link_ok cfg fn tok now f0 /\ same_fs cfg = false /\
+  let t := rd cfg fn (apply (firstn k (effects cfg fn tok now chunk f0 (save_ops ws))) f0) in
+  ~ (t = rd cfg fn f0 \/ t = Some (concat ws) \/ (rd cfg fn f0 = None /\ t = Some [])).
 Proof.
   exists w_cfg_x, w_fn, w_tok, w_now, 6%nat, w_f0, w_ws, 8%nat. exact atomic_refuted.
 Qed.
 
 Lemma C17_any_cfg_old_or_prefix_l :
   forall cfg fn tok now chunk (f0 : fs) (ws : list bytes) k,
-  token_ok tok = true -> digits_ok now = true ->
-  let t := apply (firstn k (effects cfg fn tok now chunk f0 (save_ops ws))) f0 fn in
-  t = f0 fn \/ exists m, t = Some (firstn m (concat ws)).
-Proof. intros. apply xdev_prefix; assumption. Qed.
+  token_ok tok = true -> digits_ok now = true -> link_ok cfg fn tok now f0 ->
+  let t := rd cfg fn (apply (firstn k (effects cfg fn tok now chunk f0 (save_ops ws))) f0) in
+  t = rd cfg fn f0 \/ exists m, t = Some (firstn m (concat ws)).
+Proof. intros until 2. intro Hl. dom Hl. apply xdev_prefix; assumption. Qed.
 
 Lemma C17_temp_never_read_l :
   forall cfg fn tok now, token_ok tok = true -> digits_ok now = true ->
@@ -41,65 +43,65 @@ Qed.
 
 Lemma C17_rollback_keeps_old_l :
   forall cfg fn tok now chunk (f0 : fs) (ws : list bytes),
-  token_ok tok = true -> digits_ok now = true ->
-  (forall k, apply (firstn k (effects cfg fn tok now chunk f0 (abort_ops ws))) f0 fn = f0 fn) /\
+  token_ok tok = true -> digits_ok now = true -> link_ok cfg fn tok now f0 ->
+  (forall k, rd cfg fn (apply (firstn k (effects cfg fn tok now chunk f0 (abort_ops ws))) f0) = rd cfg fn f0) /\
   apply (effects cfg fn tok now chunk f0 (abort_ops ws)) f0 (temp_name cfg fn tok) = None.
 Proof.
-  intros. split; [intro k; now apply rollback_keeps_old|now apply rollback_removes_temp].
+  intros until 2. intro Hl. dom Hl.
+  split; [intro k; now apply rollback_keeps_old|now apply rollback_removes_temp].
 Qed.
 
 Lemma C17_empty_overwrite_rule_l :
   forall cfg fn tok now chunk (f0 : fs) (ws : list bytes) o k,
-  token_ok tok = true -> digits_ok now = true ->
-  f0 fn = Some o -> concat ws = [] -> c_aeo cfg = false ->
-  apply (firstn k (effects cfg fn tok now chunk f0 (save_ops ws))) f0 fn = Some o.
-Proof. intros. now apply empty_overwrite_refused. Qed.
+  token_ok tok = true -> digits_ok now = true -> link_ok cfg fn tok now f0 ->
+  rd cfg fn f0 = Some o -> concat ws = [] -> c_aeo cfg = false ->
+  rd cfg fn (apply (firstn k (effects cfg fn tok now chunk f0 (save_ops ws))) f0) = Some o.
+Proof. intros until 2. intro Hl. dom Hl. intros. now apply empty_overwrite_refused. Qed.
 
 Lemma C17_save_completes_l :
   forall cfg fn tok now chunk (f0 : fs) (ws : list bytes),
-  token_ok tok = true -> digits_ok now = true ->
-  (concat ws <> [] \/ c_aeo cfg = true \/ f0 fn = None) ->
-  apply (effects cfg fn tok now chunk f0 (save_ops ws)) f0 fn = Some (concat ws) /\
+  token_ok tok = true -> digits_ok now = true -> link_ok cfg fn tok now f0 ->
+  (concat ws <> [] \/ c_aeo cfg = true \/ rd cfg fn f0 = None) ->
+  rd cfg fn (apply (effects cfg fn tok now chunk f0 (save_ops ws)) f0) = Some (concat ws) /\
   apply (effects cfg fn tok now chunk f0 (save_ops ws)) f0 (temp_name cfg fn tok) = None.
 Proof.
-  intros cfg fn tok now chunk f0 ws Ht Hn H. apply overwrite_allowed_iff in H.
+  intros cfg fn tok now chunk f0 ws Ht Hn Hl H. dom Hl. apply overwrite_allowed_iff in H.
   split; [now apply save_final|now apply save_final_temp_removed].
 Qed.
 
 Lemma C17_backup_rule_l :
   forall cfg fn tok now chunk (f0 : fs) (ws : list bytes),
-  token_ok tok = true -> digits_ok now = true ->
-  (forall o, f0 fn = Some o ->
-     overwrite_allowed cfg (f0 fn) (concat ws) = true ->
-     backup_wanted cfg (f0 fn) (concat ws) = true ->
+  token_ok tok = true -> digits_ok now = true -> link_ok cfg fn tok now f0 ->
+  (forall o, rd cfg fn f0 = Some o ->
+     overwrite_allowed cfg (rd cfg fn f0) (concat ws) = true ->
+     backup_wanted cfg (rd cfg fn f0) (concat ws) = true ->
      apply (effects cfg fn tok now chunk f0 (save_ops ws)) f0 (backup_name cfg fn now) = Some o) /\
-  (backup_wanted cfg (f0 fn) (concat ws) = false ->
+  (backup_wanted cfg (rd cfg fn f0) (concat ws) = false ->
      forall k, apply (firstn k (effects cfg fn tok now chunk f0 (save_ops ws))) f0 (backup_name cfg fn now)
                = f0 (backup_name cfg fn now)).
 Proof.
-  intros cfg fn tok now chunk f0 ws Ht Hn. split.
+  intros cfg fn tok now chunk f0 ws Ht Hn Hl. dom Hl. split.
   - intros o Ho Hov Hb. now apply backup_made.
   - intros Hb k. now apply backup_untouched.
 Qed.
 
-
 Lemma C17_atomic_under_unwinding_l :
   forall cfg fn tok now chunk (f0 : fs) (ws : list bytes) k inited,
-  token_ok tok = true -> digits_ok now = true -> same_fs cfg = true ->
-  let t := apply (interrupted cfg fn tok now chunk f0 (save_ops ws) k inited) f0 fn in
-  t = f0 fn \/ t = Some (concat ws) \/ (f0 fn = None /\ t = Some []).
+  token_ok tok = true -> digits_ok now = true -> link_ok cfg fn tok now f0 -> same_fs cfg = true ->
+  let t := rd cfg fn (apply (interrupted cfg fn tok now chunk f0 (save_ops ws) k inited) f0) in
+  t = rd cfg fn f0 \/ t = Some (concat ws) \/ (rd cfg fn f0 = None /\ t = Some []).
 Proof.
-  intros cfg fn tok now chunk f0 ws k inited Ht Hn Hs.
+  intros cfg fn tok now chunk f0 ws k inited Ht Hn Hl Hs. dom Hl.
   apply atomic_under_unwinding; auto using table_unwind_rolls_back.
   unfold same_fs in Hs. now apply negb_true_iff in Hs.
 Qed.
 
 Lemma C17_unwinding_any_cfg_old_or_prefix_l :
   forall cfg fn tok now chunk (f0 : fs) (ws : list bytes) k inited,
-  token_ok tok = true -> digits_ok now = true ->
-  let t := apply (interrupted cfg fn tok now chunk f0 (save_ops ws) k inited) f0 fn in
-  t = f0 fn \/ exists m, t = Some (firstn m (concat ws)).
-Proof. intros. apply unwinding_old_or_prefix; auto using table_unwind_rolls_back. Qed.
+  token_ok tok = true -> digits_ok now = true -> link_ok cfg fn tok now f0 ->
+  let t := rd cfg fn (apply (interrupted cfg fn tok now chunk f0 (save_ops ws) k inited) f0) in
+  t = rd cfg fn f0 \/ exists m, t = Some (firstn m (concat ws)).
+Proof. intros until 2. intro Hl. dom Hl. apply unwinding_old_or_prefix; auto using table_unwind_rolls_back. Qed.
 
 Lemma C17_unwinding_removes_temp_l :
   forall cfg fn tok now chunk (f0 : fs) (ops : list op) k,
@@ -110,10 +112,10 @@ Proof. intros. apply unwinding_removes_temp; auto using table_unwind_rolls_back.
 
 Lemma C17_atomic_under_write_error_l :
   forall cfg fn tok now chunk (f0 : fs) (ws : list bytes) k inited j,
-  token_ok tok = true -> digits_ok now = true -> same_fs cfg = true ->
-  let t := apply (write_error_effects cfg fn tok now chunk f0 ws k inited j) f0 fn in
-  t = f0 fn \/ t = Some (concat ws) \/ (f0 fn = None /\ t = Some []).
+  token_ok tok = true -> digits_ok now = true -> link_ok cfg fn tok now f0 -> same_fs cfg = true ->
+  let t := rd cfg fn (apply (write_error_effects cfg fn tok now chunk f0 ws k inited j) f0) in
+  t = rd cfg fn f0 \/ t = Some (concat ws) \/ (rd cfg fn f0 = None /\ t = Some []).
 Proof.
-  intros cfg fn tok now chunk f0 ws k inited j Ht Hn Hs. unfold write_error_effects.
+  intros cfg fn tok now chunk f0 ws k inited j Ht Hn Hl Hs. unfold write_error_effects.
   rewrite table_no_swallow. now apply C17_atomic_under_unwinding_l.
 Qed.
